@@ -115,6 +115,9 @@ func (fr *Frame) constVal(c *ssa.Const, st *State) Val {
 			if !ok {
 				panic(unsupported("integer constant " + c.Value.ExactString()))
 			}
+			if isWide(t) {
+				return scalar(t, IntBig(bi))
+			}
 			return scalar(t, BVBig(bi, w))
 		case u.Info()&types.IsFloat != 0:
 			return scalar(t, fr.ctx.Const("fconst:"+c.Value.ExactString(), "F64"))
@@ -131,7 +134,7 @@ func (fr *Frame) stringConst(st *State, t types.Type, s string) Val {
 		return v
 	}
 	if s == "" {
-		v := mkString(t, Nil, BV(0, 64), BV(0, 64))
+		v := mkString(t, Nil, IntT(0), IntT(0))
 		top.strObjs[s] = v
 		return v
 	}
@@ -139,16 +142,16 @@ func (fr *Frame) stringConst(st *State, t types.Type, s string) Val {
 	fr.ctx.Assume(And(Not(Eq(obj, Nil)), IntCmp("<", top.stamp(obj), top.alloc0)))
 	// content: the bytes live in the entry heap and string objects are never written
 	if len(s) <= 64 {
-		h := top.entryHeap(elemHeap(types.Typ[types.Uint8], ""), ArrSort(SInt, ArrSort(SBV64, SBV8)))
+		h := top.entryHeap(elemHeap(types.Typ[types.Uint8], ""), byteHeapSort)
 		arr := Select(h, obj)
 		var cs []Term
 		for i := 0; i < len(s); i++ {
-			cs = append(cs, Eq(Select(arr, BV(int64(i), 64)), BV(int64(s[i]), 8)))
+			cs = append(cs, Eq(Select(arr, IntT(int64(i))), BV(int64(s[i]), 8)))
 		}
 		fr.ctx.Assume(And(cs...))
 		top.constStrs = append(top.constStrs, obj)
 	}
-	v := mkString(t, obj, BV(0, 64), BV(int64(len(s)), 64))
+	v := mkString(t, obj, IntT(0), IntT(int64(len(s))))
 	top.strObjs[s] = v
 	return v
 }
@@ -380,127 +383,27 @@ func (fr *Frame) execUnOp(st *State, x *ssa.UnOp) {
 		fr.setReg(x, scalar(x.Type(), Not(fr.val(st, x.X).Term())))
 	case token.SUB:
 		a := fr.val(st, x.X).Term()
-		fr.setReg(x, scalar(x.Type(), app(a.Sort, "bvneg", a)))
+		if isWide(x.Type()) {
+			fr.setReg(x, scalar(x.Type(), wrapInt(ISub(IntT(0), a), isSigned(x.Type()))))
+		} else {
+			fr.setReg(x, scalar(x.Type(), app(a.Sort, "bvneg", a)))
+		}
 	case token.XOR:
 		a := fr.val(st, x.X).Term()
-		fr.setReg(x, scalar(x.Type(), app(a.Sort, "bvnot", a)))
+		if isWide(x.Type()) {
+			if isSigned(x.Type()) {
+				fr.setReg(x, scalar(x.Type(), ISub(ISub(IntT(0), a), IntT(1))))
+			} else {
+				fr.setReg(x, scalar(x.Type(), ISub(maxU64, a)))
+			}
+		} else {
+			fr.setReg(x, scalar(x.Type(), app(a.Sort, "bvnot", a)))
+		}
 	case token.ARROW:
 		fr.execRecv(st, x)
 	default:
 		panic(unsupported("unary op " + x.Op.String()))
 	}
-}
-
-func (fr *Frame) binop(st *State, op token.Token, a, b Val, opT, resT types.Type, at ssa.Instruction) Val {
-	// comparisons on composite values
-	switch op {
-	case token.EQL, token.NEQ:
-		eq := fr.valEq(st, a, b, opT)
-		if op == token.NEQ {
-			eq = Not(eq)
-		}
-		return scalar(resT, eq)
-	}
-	if isString(opT) {
-		switch op {
-		case token.ADD:
-			return fr.stringConcat(st, a, b, resT)
-		}
-		panic(unsupported("string operator " + op.String()))
-	}
-	if isBool(opT) {
-		x, y := a.Term(), b.Term()
-		switch op {
-		case token.AND, token.LAND:
-			return scalar(resT, And(x, y))
-		case token.OR, token.LOR:
-			return scalar(resT, Or(x, y))
-		}
-		panic(unsupported("bool operator " + op.String()))
-	}
-	if !isInteger(opT) {
-		if bt, ok := opT.Underlying().(*types.Basic); ok && bt.Info()&types.IsFloat != 0 {
-			return fr.floatOp(st, op, a, b, resT)
-		}
-		panic(unsupported("binary operator " + op.String() + " on " + opT.String()))
-	}
-	x, y := a.Term(), b.Term()
-	signed := isSigned(opT)
-	w := sortWidth(x.Sort)
-	pos := token.NoPos
-	if at != nil {
-		pos = at.Pos()
-	}
-	switch op {
-	case token.ADD:
-		return scalar(resT, BVOp("bvadd", x, y))
-	case token.SUB:
-		return scalar(resT, BVOp("bvsub", x, y))
-	case token.MUL:
-		return scalar(resT, BVOp("bvmul", x, y))
-	case token.QUO, token.REM:
-		if at != nil {
-			fr.oblige(st, "div-by-zero", "", Not(Eq(y, BV(0, w))), nil, pos)
-			fr.assume(st, Not(Eq(y, BV(0, w))))
-		}
-		o := map[bool]map[token.Token]string{true: {token.QUO: "bvsdiv", token.REM: "bvsrem"}, false: {token.QUO: "bvudiv", token.REM: "bvurem"}}[signed][op]
-		return scalar(resT, BVOp(o, x, y))
-	case token.AND:
-		return scalar(resT, BVOp("bvand", x, y))
-	case token.OR:
-		return scalar(resT, BVOp("bvor", x, y))
-	case token.XOR:
-		return scalar(resT, BVOp("bvxor", x, y))
-	case token.AND_NOT:
-		return scalar(resT, BVOp("bvand", x, app(y.Sort, "bvnot", y)))
-	case token.SHL, token.SHR:
-		// shift count may have a different width; Go semantics: count >= width gives 0 (or sign fill)
-		yw := sortWidth(y.Sort)
-		var cnt Term
-		if yw > w {
-			// saturate
-			big := BVCmp("bvuge", y, BV(int64(w), yw))
-			cnt = Ite(big, BV(int64(w), w), Resize(y, w, false))
-		} else {
-			cnt = Resize(y, w, false)
-		}
-		if at != nil {
-			if bt, ok := at.(*ssa.BinOp); ok && isSigned(bt.Y.Type()) {
-				yy := fr.regOrConst(st, bt.Y)
-				neg := BVCmp("bvslt", yy, BV(0, sortWidth(yy.Sort)))
-				if neg.S != "false" {
-					fr.oblige(st, "negative-shift", "", Not(neg), nil, pos)
-				}
-			}
-		}
-		switch {
-		case op == token.SHL:
-			return scalar(resT, BVOp("bvshl", x, cnt))
-		case signed:
-			return scalar(resT, BVOp("bvashr", x, cnt))
-		default:
-			return scalar(resT, BVOp("bvlshr", x, cnt))
-		}
-	case token.LSS, token.LEQ, token.GTR, token.GEQ:
-		m := map[token.Token][2]string{token.LSS: {"bvslt", "bvult"}, token.LEQ: {"bvsle", "bvule"}, token.GTR: {"bvsgt", "bvugt"}, token.GEQ: {"bvsge", "bvuge"}}[op]
-		o := m[1]
-		if signed {
-			o = m[0]
-		}
-		return scalar(resT, BVCmp(o, x, y))
-	}
-	panic(unsupported("binary operator " + op.String()))
-}
-
-
-func (fr *Frame) regOrConst(st *State, v ssa.Value) Term { return fr.val(st, v).Term() }
-
-func (fr *Frame) floatOp(st *State, op token.Token, a, b Val, resT types.Type) Val {
-	fr.top.note("floating point operation abstracted (uninterpreted)")
-	if isBool(resT) {
-		return scalar(resT, fr.ctx.Fresh("fcmp", SBool))
-	}
-	return scalar(resT, fr.ctx.Fresh("fop", "F64"))
 }
 
 // valEq compares two values of static type t.
@@ -547,7 +450,7 @@ func (fr *Frame) valEq(st *State, a, b Val, t types.Type) Term {
 			var cs []Term
 			for k := range a.C {
 				for i := int64(0); i < n; i++ {
-					cs = append(cs, Eq(Select(a.C[k], BV(i, 64)), Select(b.C[k], BV(i, 64))))
+					cs = append(cs, Eq(Select(a.C[k], IntT(i)), Select(b.C[k], IntT(i))))
 				}
 			}
 			return And(cs...)
@@ -566,28 +469,6 @@ func (fr *Frame) valEq(st *State, a, b Val, t types.Type) Term {
 		cs = append(cs, Eq(a.C[i], b.C[i]))
 	}
 	return And(cs...)
-}
-
-func (fr *Frame) stringEq(st *State, a, b Val) Term {
-	// len equal and bytes equal
-	h := fr.heap(st, elemHeap(types.Typ[types.Uint8], ""), ArrSort(SInt, ArrSort(SBV64, SBV8)))
-	j := Term{"j!se", SBV64}
-	body := Implies(And(BVCmp("bvsle", BV(0, 64), j), BVCmp("bvslt", j, a.Len())),
-		Eq(Select(Select(h, a.Obj()), BVOp("bvadd", a.Off(), j)), Select(Select(h, b.Obj()), BVOp("bvadd", b.Off(), j))))
-	return And(Eq(a.Len(), b.Len()), Forall([]Term{j}, body))
-}
-
-func (fr *Frame) stringConcat(st *State, a, b Val, t types.Type) Val {
-	obj := fr.newObject(st, "strcat")
-	ln := BVOp("bvadd", a.Len(), b.Len())
-	h := fr.heap(st, elemHeap(types.Typ[types.Uint8], ""), ArrSort(SInt, ArrSort(SBV64, SBV8)))
-	arr := Select(h, obj)
-	j := Term{"j!sc", SBV64}
-	body := And(
-		Implies(And(BVCmp("bvsle", BV(0, 64), j), BVCmp("bvslt", j, a.Len())), Eq(Select(arr, j), Select(Select(h, a.Obj()), BVOp("bvadd", a.Off(), j)))),
-		Implies(And(BVCmp("bvsle", a.Len(), j), BVCmp("bvslt", j, ln)), Eq(Select(arr, j), Select(Select(h, b.Obj()), BVOp("bvadd", b.Off(), BVOp("bvsub", j, a.Len()))))))
-	fr.assume(st, Forall([]Term{j}, body, Select(arr, j)))
-	return mkString(t, obj, BV(0, 64), ln)
 }
 
 func (fr *Frame) execFieldAddr(st *State, x *ssa.FieldAddr) {
@@ -629,144 +510,6 @@ func (fr *Frame) execFieldAddr(st *State, x *ssa.FieldAddr) {
 	}
 }
 
-func (fr *Frame) boundsCheck(st *State, kind, detail string, idx, ln Term, pos token.Pos) {
-	g := And(BVCmp("bvsle", BV(0, 64), idx), BVCmp("bvslt", idx, ln))
-	fr.oblige(st, kind, detail, g, nil, pos)
-	fr.assume(st, g)
-}
-
-func (fr *Frame) idx64(v Val, t types.Type) Term {
-	x := v.Term()
-	return Resize(x, 64, isSigned(t))
-}
-
-func (fr *Frame) execIndexAddr(st *State, x *ssa.IndexAddr) {
-	base := fr.val(st, x.X)
-	idx := fr.idx64(fr.val(st, x.Index), x.Index.Type())
-	if !isSigned(x.Index.Type()) && sortWidth(fr.val(st, x.Index).Term().Sort) == 64 {
-		// unsigned 64-bit index: must also be < 2^63
-		fr.assume(st, True)
-	}
-	switch u := x.X.Type().Underlying().(type) {
-	case *types.Slice:
-		fr.boundsCheck(st, "index", fr.describe(x), idx, base.Len(), x.Pos())
-		fr.regs[x] = Val{K: KElemPtr, T: x.Type(), Base: base.Obj(), Idx: fr.ctx.Def("ix", BVOp("bvadd", base.Off(), idx)), ElemT: u.Elem(), CHi: -1}
-	case *types.Pointer:
-		at := u.Elem().Underlying().(*types.Array)
-		ref := base.Term()
-		nn := Not(Eq(ref, Nil))
-		if nn.S != "true" {
-			fr.oblige(st, "nil-deref", fr.describe(x.X), nn, nil, x.Pos())
-			fr.assume(st, nn)
-		}
-		fr.boundsCheck(st, "index", fr.describe(x), idx, BV(at.Len(), 64), x.Pos())
-		fr.regs[x] = Val{K: KElemPtr, T: x.Type(), Base: ref, Idx: idx, ElemT: at.Elem(), CHi: -1}
-	default:
-		panic(unsupported("indexaddr on " + x.X.Type().String()))
-	}
-}
-
-func (fr *Frame) execIndex(st *State, x *ssa.Index) {
-	base := fr.val(st, x.X)
-	idx := fr.idx64(fr.val(st, x.Index), x.Index.Type())
-	switch u := x.X.Type().Underlying().(type) {
-	case *types.Array:
-		fr.boundsCheck(st, "index", fr.describe(x), idx, BV(u.Len(), 64), x.Pos())
-		v := Val{K: KNormal, T: x.Type()}
-		for _, c := range base.C {
-			v.C = append(v.C, Select(c, idx))
-		}
-		fr.assumeWF(st, v)
-		fr.setReg(x, v)
-	case *types.Basic: // string
-		fr.boundsCheck(st, "index", fr.describe(x), idx, base.Len(), x.Pos())
-		h := fr.heap(st, elemHeap(types.Typ[types.Uint8], ""), ArrSort(SInt, ArrSort(SBV64, SBV8)))
-		fr.setReg(x, scalar(x.Type(), Select(Select(h, base.Obj()), BVOp("bvadd", base.Off(), idx))))
-	default:
-		panic(unsupported("index on " + x.X.Type().String()))
-	}
-}
-
-func (fr *Frame) execSlice(st *State, x *ssa.Slice) {
-	base := fr.val(st, x.X)
-	var obj, off, ln, cp Term
-	isStr := false
-	switch u := x.X.Type().Underlying().(type) {
-	case *types.Slice:
-		obj, off, ln, cp = base.Obj(), base.Off(), base.Len(), base.Cap()
-	case *types.Basic:
-		isStr = true
-		obj, off, ln, cp = base.Obj(), base.Off(), base.Len(), base.Len()
-	case *types.Pointer:
-		at := u.Elem().Underlying().(*types.Array)
-		ref := base.Term()
-		nn := Not(Eq(ref, Nil))
-		if nn.S != "true" {
-			fr.oblige(st, "nil-deref", fr.describe(x.X), nn, nil, x.Pos())
-			fr.assume(st, nn)
-		}
-		obj, off, ln, cp = ref, BV(0, 64), BV(at.Len(), 64), BV(at.Len(), 64)
-	default:
-		panic(unsupported("slice of " + x.X.Type().String()))
-	}
-	lo := BV(0, 64)
-	if x.Low != nil {
-		lo = fr.idx64(fr.val(st, x.Low), x.Low.Type())
-	}
-	hi := ln
-	if x.High != nil {
-		hi = fr.idx64(fr.val(st, x.High), x.High.Type())
-	}
-	mx := cp
-	if x.Max != nil {
-		mx = fr.idx64(fr.val(st, x.Max), x.Max.Type())
-	}
-	// 0 <= lo <= hi <= max <= cap
-	limit := cp
-	if isStr {
-		limit = ln
-	}
-	g := And(BVCmp("bvsle", BV(0, 64), lo), BVCmp("bvsle", lo, hi), BVCmp("bvsle", hi, mx), BVCmp("bvsle", mx, limit))
-	fr.oblige(st, "slice-bounds", fr.describe(x), g, nil, x.Pos())
-	fr.assume(st, g)
-	noff := BVOp("bvadd", off, lo)
-	nlen := BVOp("bvsub", hi, lo)
-	if isStr {
-		fr.setReg(x, mkString(x.Type(), obj, noff, nlen))
-		return
-	}
-	ncap := BVOp("bvsub", mx, lo)
-	fr.setReg(x, mkSlice(x.Type(), obj, noff, nlen, ncap))
-}
-
-func (fr *Frame) execConvert(st *State, x *ssa.Convert) {
-	v := fr.val(st, x.X)
-	from, to := x.X.Type(), x.Type()
-	switch {
-	case isInteger(from) && isInteger(to):
-		w, _, _ := basicWidth(to.Underlying().(*types.Basic))
-		fr.setReg(x, scalar(to, Resize(v.Term(), w, isSigned(from))))
-	case isString(from) && isByteSlice(to):
-		// fresh copy
-		obj := fr.newObject(st, "bytes")
-		fr.copyInto(st, obj, BV(0, 64), v.Obj(), v.Off(), v.Len(), types.Typ[types.Uint8])
-		fr.setReg(x, mkSlice(to, obj, BV(0, 64), v.Len(), v.Len()))
-	case isByteSlice(from) && isString(to):
-		obj := fr.newObject(st, "string")
-		fr.copyInto(st, obj, BV(0, 64), v.Obj(), v.Off(), v.Len(), types.Typ[types.Uint8])
-		// an empty conversion yields "" (nil object is fine as len==0)
-		fr.setReg(x, mkString(to, obj, BV(0, 64), v.Len()))
-	case isInteger(from) && isFloat(to), isFloat(from) && isInteger(to), isFloat(from) && isFloat(to):
-		fr.top.note("float conversion abstracted")
-		fr.setReg(x, fr.fresh("fconv", to))
-	case isPointerLike(from) && isPointerLike(to):
-		v.T = to
-		fr.setReg(x, v)
-	default:
-		panic(unsupported(fmt.Sprintf("convert %s -> %s", from, to)))
-	}
-}
-
 func isFloat(t types.Type) bool {
 	b, ok := t.Underlying().(*types.Basic)
 	return ok && b.Info()&types.IsFloat != 0
@@ -785,23 +528,6 @@ func isPointerLike(t types.Type) bool {
 func isByteSlice(t types.Type) bool {
 	s, ok := t.Underlying().(*types.Slice)
 	return ok && isByteLike(s.Elem())
-}
-
-// copyInto makes obj[dOff+j] = src[sOff+j] for 0<=j<n (all components), other indices unchanged.
-func (fr *Frame) copyInto(st *State, dObj, dOff, sObj, sOff, n Term, et types.Type) {
-	l := fr.en.layout(et)
-	for k := range l {
-		old := fr.objArray(st, dObj, et, k)
-		src := fr.objArray(st, sObj, et, k)
-		old = fr.ctx.Def("old", old)
-		src = fr.ctx.Def("src", src)
-		na := fr.ctx.Fresh("cp", old.Sort)
-		j := Term{"j!cp", SBV64}
-		inr := And(BVCmp("bvsle", dOff, j), BVCmp("bvslt", j, BVOp("bvadd", dOff, n)))
-		body := Eq(Select(na, j), Ite(inr, Select(src, BVOp("bvadd", sOff, BVOp("bvsub", j, dOff))), Select(old, j)))
-		fr.assume(st, Forall([]Term{j}, body, Select(na, j)))
-		fr.setObjArray(st, dObj, et, k, na)
-	}
 }
 
 func (fr *Frame) execMakeInterface(st *State, x *ssa.MakeInterface) {
@@ -864,17 +590,3 @@ func (fr *Frame) execTypeAssert(st *State, x *ssa.TypeAssert) {
 	fr.setReg(x, res)
 }
 
-func (fr *Frame) execMakeSlice(st *State, x *ssa.MakeSlice) {
-	ln := fr.idx64(fr.val(st, x.Len), x.Len.Type())
-	cp := fr.idx64(fr.val(st, x.Cap), x.Cap.Type())
-	g := And(BVCmp("bvsle", BV(0, 64), ln), BVCmp("bvsle", ln, cp), BVCmp("bvsle", cp, BV(maxObj, 64)))
-	fr.oblige(st, "makeslice", fr.describe(x), g, nil, x.Pos())
-	fr.assume(st, g)
-	obj := fr.newObject(st, "mk")
-	et := x.Type().Underlying().(*types.Slice).Elem()
-	for k, c := range fr.en.layout(et) {
-		as := ArrSort(SBV64, c.Sort)
-		fr.setObjArray(st, obj, et, k, Term{fmt.Sprintf("((as const %s) %s)", as, c.Zero.S), as})
-	}
-	fr.setReg(x, mkSlice(x.Type(), obj, BV(0, 64), ln, cp))
-}
